@@ -218,4 +218,23 @@ func init() {
 			})
 		},
 	})
+	register(&propDef{
+		ID: "C14",
+		Explanation: "tables/ukkonen: the return expression of filter.MinWordsPerFilterHit is normalised as a polynomial over its parameters (straight-line locals substituted) and must equal n + 1 - k*e - k; every call passes (minimum match length, word size, error bound) in those roles (roles derived from filter.New's field initialisers). emitguard: each of the addHit call sites is reached exactly on the edge where tube.Count >= minKmersPerHit (inclusive; SSA dominating branches with polarity), and every reset of a tube's Count to a constant is preceded on every path by a comparison of Count with minKmersPerHit (or the tube is known empty). A higher or exclusive threshold, or a retirement without the test, is a guaranteed false negative.",
+		NotDecided:  "tube geometry, ticker recycling, diagonal arithmetic — i.e. the no-false-negative theorem itself (value-level). This decides two necessary conditions only.",
+		Assumptions: []string{"Rasmussen/Stoye/Myers: U(n,q,e) = n + 1 - q(e+1) q-grams are shared by any e-match of length n"},
+		Run: func(c *Ctx) {
+			c.guard("tables/ukkonen", func() { ruleUkkonen(c, "tables/ukkonen"); c.floor("tables/ukkonen", 2) })
+			c.guard("emitguard", func() { ruleFilterEmit(c, "emitguard"); c.floor("emitguard", 6) })
+		},
+	})
+	register(&propDef{
+		ID: "C15",
+		Explanation: "emitguard: the only send on the DP kernel's result channel is in alignRecursion and is reached solely over edges on which both extents (Bepos-Bbpos, Aepos-Abpos) are >= minLen and the error estimate is <= maxDiff (SSA dominating branches with polarity, operands identified by field), the hit's Error field is assigned that same tested value on a dominating path, and AlignTraps wires minLen from the aligner's minimum hit length and maxDiff as 1 - minId.",
+		NotDecided:  "score <= optimal global score of the hit regions, in-bounds coordinates, recall of planted repeats, self-match suppression (value-level). This decides one clause only.",
+		Assumptions: []string{"the kernel's Hit fields Abpos/Aepos/Bbpos/Bepos are the hit's begin/end positions on the two sequences"},
+		Run: func(c *Ctx) {
+			c.guard("emitguard", func() { ruleDPEmit(c, "emitguard"); c.floor("emitguard", 6) })
+		},
+	})
 }
